@@ -54,7 +54,7 @@ def fixed_cases(tier):
 
 
 def examples(tier):
-    return 1500 if tier == "quick" else 15000
+    return 1500 if tier == "quick" else 60000
 
 
 def wall_budget(tier):
